@@ -21,6 +21,7 @@ tvars == << ivars, l, lostp, viol >>
 TraceCtx == 0..(atoi(IOEnv.MAXN) - 1)
 TraceNone == -1
 TraceLanes == atoi(IOEnv.NLANES)
+TraceSb == atoi(IOEnv.SBTHR)
 TraceB == atoi(IOEnv.BLOCK)
 TraceP == atoi(IOEnv.LENF)
 IsEv(name) == l <= NEv /\ Tr[l].e = name
